@@ -4,6 +4,36 @@
 // Proposed fix: forward to _scalerLeastsq (and _boostedScalerLeastsq) directly, independent of the selected scaler.
 // build: g++ -std=gnu++14 -DNDEBUG -I/repo/src -I<dir with soplex/config.h> FILE.cpp /repo/src/soplex/{didxset,idxset,mpsinput,nameset,spxdefines,spxgithash,spxid,spxout,usertimer,wallclocktimer}.cpp -lgmp -lmpfr -lz
 // (or against the cached objects: see /verif/HARNESS_GUIDE.md)
+// (private members are read to show the state; standard headers first so that only SoPlex is opened up)
+#include <string>
+#include <sstream>
+#include <iostream>
+#include <fstream>
+#include <iomanip>
+#include <vector>
+#include <list>
+#include <memory>
+#include <map>
+#include <set>
+#include <unordered_map>
+#include <algorithm>
+#include <functional>
+#include <numeric>
+#include <random>
+#include <limits>
+#include <thread>
+#include <mutex>
+#include <atomic>
+#include <chrono>
+#include <cmath>
+#include <cstring>
+#include <cassert>
+#include <climits>
+#include <cfloat>
+#include <boost/multiprecision/gmp.hpp>
+#include <boost/multiprecision/mpfr.hpp>
+#include <boost/multiprecision/number.hpp>
+#include <boost/multiprecision/detail/default_ops.hpp>
 #define private public
 #define protected public
 #include "soplex.h"
